@@ -140,6 +140,13 @@ class C10(DiffCheck):
             chosen = sorted(set(pool[p % len(pool)] for p in picks)) if pool else []
             if inner and outer:
                 chosen.append(outer[picks[0] % len(outer)])
+                chosen.append(outer[picks[2] % len(outer)])
+                # the boundary after the only/last commit of a release or close: a missing final commit shows there
+                last_of = [ks[-1] for opi, ks in per_op.items() if opi is not None and script[opi].get("op") == "send"
+                           and script[opi]["msg"].get("type") in ("release", "close")]
+                if last_of:
+                    chosen.append(last_of[picks[1] % len(last_of)])
+                chosen = sorted(set(chosen))
         for k in chosen:
             classes = {}
             payload = {"property": self.id, "cfg": cfg, "script": script, "boundary": k}
